@@ -222,7 +222,7 @@ pub fn execute(p: &Prepared, funcs: &BTreeMap<String, J>) -> Executed {
         // the caller's bindings must be what they were
         for (k, v) in p.params.iter() {
             if let (Some(now), Some(c)) = (b.get_param(k), v.to_cel()) {
-                if crate::val::project(now) != crate::val::project(&c) {
+                if crate::val::project(now).to_json() != crate::val::project(&c).to_json() {
                     bind_after_ok = false;
                 }
             }
